@@ -36,6 +36,14 @@ CLAIMED = {
         "predicates are total and count acting/failing forms, `go` spawns once. Goroutine interleavings are not decided.",
    technique="static analysis: continuation-nesting (syntactic dominance) rule, def-use into the loop body, coverage audit of effect predicates",
    ref="DESIGN.md section 4, C09"),
+ "C03": dict(
+   text="Static decision of the gates and of the unifier/pattern plumbing: has_errors() gates between every diagnostics-producing stage and "
+        "the next stage or Ok result, resolver diagnostics merged, Typer::unify (occurs-before-bind, all diagonals, arity before zip, tested "
+        "recursive results, rejecting catch-all), typer-side Ty traversals handle every former, unresolved variables reported, the array "
+        "wildcard confined to parameters, every pattern form constrains the scrutinee, substitutions use the result type. The typing rules "
+        "themselves (constraint generation) are not decided.",
+   technique="static analysis: stage-event ordering (must-pass-through gate), coverage audit of the unifier and type traversals, expected-type plumbing rule",
+   ref="DESIGN.md section 4, C03"),
  "C05": dict(
    text="Static decision of the scoping discipline in the two places that implement lexical scope: the scope constructs are derived "
         "from where the typer opens scopes; for each the AST->HIR resolver must resolve the scoped children in a child environment "
